@@ -199,6 +199,20 @@ func c19PoolAlternating(keyFields []int, threshold, pad, k int, classes []int) *
 	return p
 }
 
+// c19PoolManyKeySets: k records with k DISTINCT values of the first metric key (same length, same offset), each
+// parsed, processed and released before the next: one long-lived counter set sees more key sets than any fixed
+// table or cap (seed C19/9: a cap of 2000 key sets whose overflow counters were never written).
+func c19PoolManyKeySets(keyFields []int, threshold, pad, k int, classes []int) *c19PoolPlan {
+	p := &c19PoolPlan{KeyFields: keyFields, Threshold: threshold, OneProc: true}
+	for i := 0; i < k; i++ {
+		vals := [4]string{"h1", "aaaa", "101", "src"}
+		vals[keyFields[0]] = fmt.Sprintf("k%05d", i)
+		p.Recs = append(p.Recs, c19PoolMkRec(classes[i%len(classes)], vals, keyFields, i, pad))
+		p.Ops = append(p.Ops, c19PoolOp{Parse: i}, c19PoolOp{Parse: -1, Send: 1})
+	}
+	return p
+}
+
 type c19PoolNullOutput struct{}
 
 func (c19PoolNullOutput) SerializeRecord(_ *base.LogRecord) base.LogStream { return nil }
@@ -615,6 +629,11 @@ func c19GenPooled(g *Gen) {
 				c19PoolQueue(g, c19PoolAlternating(kf, th, pad+17, 7, []int{2, 0, 1}))
 			}
 		}
+	}
+	// more distinct key sets through one counter set than any plausible fixed capacity
+	c19PoolQueue(g, c19PoolManyKeySets([]int{1}, 0, 60, g.Pick(2300, 9000), []int{0, 0, 1, 0, 3, 2}))
+	if g.Thorough() {
+		c19PoolQueue(g, c19PoolManyKeySets([]int{0, 1}, 1024, 1100, 2300, []int{0, 1}))
 	}
 	n := g.Pick(150, 4000)
 	for i := 0; i < n; i++ {
